@@ -268,8 +268,28 @@ func runC15(w *World) {
 	case 5, 6:
 		target = mkNode("n1", "10.0.0.1", true)
 		target.opts.ProtectedMode = "yes"
+		pwCleared := mode == 5 && (w.seed/64)%2 == 1
+		if pwCleared {
+			// the server starts with a password in its configuration file, which an administrator
+			// then removes at run time (without rewriting the file): from that moment it has no
+			// password, and protected mode has to shut non-loopback peers out
+			target.config["requirepass"] = pass
+		}
 		writeCfg(target)
 		target.start()
+		if pwCleared && target.inst.ready() {
+			adm := newObserver(w, target)
+			adm.a.from = "127.0.0.1:50009"
+			if v, ok := adm.do("AUTH", pass); !ok || v.String() != "+OK" {
+				w.harnessErr("admin AUTH failed: %s", v.String())
+				return
+			}
+			if v, ok := adm.do("CONFIG", "SET", "requirepass", ""); !ok || v.String() != "+OK" {
+				w.harnessErr("CONFIG SET requirepass '' failed: %s", v.String())
+				return
+			}
+			w.stat("probe.password_removed_at_runtime_under_protected_mode", 1)
+		}
 		if mode == 5 {
 			// non-loopback peers of several address families and spellings
 			clientAddr = simAddr([]string{"10.9.8.7:50001", "[2001:db8::7]:50001", "[fe80::1c2:3ff:fe04:5%eth0]:50001",
